@@ -258,6 +258,41 @@ class _Canon(ast.NodeTransformer):
                 n.body, n.orelse = n.orelse, n.body
         return n
 
+    def _orient(self, n: ast.If) -> ast.If:
+        if n.orelse and not (len(n.orelse) == 1 and isinstance(n.orelse[0], ast.If)) and not getattr(n, "_is_elif", False) \
+                and not (len(n.body) == 1 and isinstance(n.body[0], ast.If) and n.body[0].orelse):
+            neg = self.visit_UnaryOp(ast.copy_location(ast.UnaryOp(op=ast.Not(), operand=copy.deepcopy(n.test)), n.test))
+            if self._negatives(neg) < self._negatives(n.test):
+                n.test = neg
+                n.body, n.orelse = n.orelse, n.body
+        return n
+
+    def _unguard(self, block: list[ast.stmt], tail: bool) -> list[ast.stmt]:
+        out = list(block)
+        for i, st in enumerate(out):
+            if isinstance(st, ast.If):
+                changed = False
+                if not st.orelse and st.body and isinstance(st.body[-1], ast.Continue) and i + 1 < len(out):
+                    st.orelse = out[i + 1:]
+                    del out[i + 1:]
+                    changed = True
+                last = i == len(out) - 1
+                if changed and tail:
+                    st.body = st.body[:-1]              # the guard's own `continue` is now the end of the iteration anyway
+                st.body = self._unguard(st.body, tail and last)
+                st.orelse = self._unguard(st.orelse, tail and last) if st.orelse else st.orelse
+                if not st.body:                         # `if c: continue` in tail position: only the other branch does anything
+                    if st.orelse:
+                        st.test = self.visit_UnaryOp(ast.copy_location(ast.UnaryOp(op=ast.Not(), operand=st.test), st.test))
+                        st.body, st.orelse = st.orelse, []
+                    else:
+                        st.body = [ast.copy_location(ast.Pass(), st)]
+                elif changed:
+                    self._orient(st)
+                if changed:
+                    break
+        return out
+
     @staticmethod
     def _reroll(first: ast.stmt, loop: ast.stmt):
         """`x = []` directly followed by `for v in it: [if c: ...] x.append(e)`  ->  `x = [e for v in it if c]`, or None."""
@@ -328,9 +363,9 @@ class _Canon(ast.NodeTransformer):
                     for h in st.handlers:
                         scan(h.body)
                 if isinstance(st, ast.Assign) and len(st.targets) == 1 and isinstance(st.targets[0], ast.Name) and isinstance(st.value, ast.Attribute) \
-                        and isinstance(st.value.value, ast.Name) and st.value.value.id == "self" and st.value.attr not in props \
-                        and counts.get(st.targets[0].id, [0, 0])[1] == 1 and 1 <= counts.get(st.targets[0].id, [0, 0])[0] <= 4:
-                    name, attr = st.targets[0].id, st.value.attr
+                        and isinstance(st.value.value, ast.Name) and st.value.attr not in props and st.value.value.id != st.targets[0].id \
+                        and counts.get(st.targets[0].id, [0, 0])[1] == 1 and 1 <= counts.get(st.targets[0].id, [0, 0])[0] <= 12:
+                    name, attr, owner = st.targets[0].id, st.value.attr, st.value.value.id
                     total = counts[name][0]
                     seen, j, ok = 0, i + 1, True
                     while j < len(block) and seen < total and ok:
@@ -339,9 +374,11 @@ class _Canon(ast.NodeTransformer):
                         seen += here
                         last = seen >= total
                         for x in ast.walk(nxt):
-                            if isinstance(x, ast.Call) and ((isinstance(x.func, ast.Attribute) and isinstance(x.func.value, ast.Name) and x.func.value.id == "self")
-                                                            or any(isinstance(a, ast.Name) and a.id == "self" for a in x.args)):
-                                ok = False            # a method of the object may rebind the field
+                            if isinstance(x, ast.Call) and ((isinstance(x.func, ast.Attribute) and isinstance(x.func.value, ast.Name) and x.func.value.id == owner)
+                                                            or any(isinstance(a, ast.Name) and a.id == owner for a in list(x.args) + [k.value for k in x.keywords])):
+                                ok = False            # a method of the object, or a function it is handed to, may rebind the field
+                            if isinstance(x, ast.Name) and x.id == owner and isinstance(x.ctx, (ast.Store, ast.Del)):
+                                ok = False            # the name now denotes another object
                             if isinstance(x, ast.Attribute) and isinstance(x.ctx, (ast.Store, ast.Del)) and x.attr == attr:
                                 par_ok = last and isinstance(nxt, (ast.Assign, ast.If))      # value read before the store in `self.a = f(k)`
                                 stores_after_reads = all(isinstance(a, ast.Assign) and any(t is x for t in a.targets) and
@@ -360,7 +397,7 @@ class _Canon(ast.NodeTransformer):
                             class _S(ast.NodeTransformer):
                                 def visit_Name(self2, x):
                                     if x.id == name and isinstance(x.ctx, ast.Load):
-                                        return ast.copy_location(ast.Attribute(value=ast.Name(id="self", ctx=ast.Load()), attr=attr, ctx=ast.Load()), x)
+                                        return ast.copy_location(ast.Attribute(value=ast.Name(id=owner, ctx=ast.Load()), attr=attr, ctx=ast.Load()), x)
                                     return x
                             _S().visit(nxt)
                         del block[i]
@@ -442,17 +479,10 @@ class _Canon(ast.NodeTransformer):
                     i += 1
                 if len(nb) != len(b):
                     setattr(node, fld, nb)
-        # `if not <order comparison>: continue` directly in a loop body, followed by more statements, is the positive branch written as a
-        # guard clause (the negation of an order comparison has no positive spelling that also agrees for NaN): nest the rest under it
+        # Guard clauses in a loop: `if c: A; continue` followed by R is `if c: A else: R`; a `continue` that ends up last on its path
+        # through the loop body does nothing and is dropped (`if c: continue` + R becomes `if not c: R`).
         if isinstance(node, (ast.For, ast.While)) and isinstance(node.body, list):
-            b = node.body
-            for i, st in enumerate(b):
-                if isinstance(st, ast.If) and not st.orelse and len(st.body) == 1 and isinstance(st.body[0], ast.Continue) \
-                        and isinstance(st.test, ast.UnaryOp) and isinstance(st.test.op, ast.Not) and isinstance(st.test.operand, ast.Compare) \
-                        and len(st.test.operand.ops) == 1 and isinstance(st.test.operand.ops[0], (ast.Lt, ast.LtE, ast.Gt, ast.GtE)) and b[i + 1:]:
-                    new_if = ast.copy_location(ast.If(test=st.test.operand, body=b[i + 1:], orelse=[]), st)
-                    node.body = b[:i] + [new_if]
-                    break
+            node.body = self._unguard(node.body, True)
         for fld in ("body", "orelse", "finalbody"):
             b = getattr(node, fld, None)
             if isinstance(b, list) and len(b) > 1 and any(isinstance(x, ast.Pass) for x in b):
